@@ -1939,3 +1939,24 @@ mod tests {
         }
     }
 }
+
+// Verification hook (no behaviour change): the pull path's reply matching and RESTORE
+// construction (`get_data_entry` followed by `gen_restore_resp`, as `handle_dump_pttl_task` and
+// `MgrCmdStateRestoreForward::from_state_dump` compose them), reachable from the /verif harness.
+#[cfg(undermoon_verif)]
+pub mod verif_export {
+    use super::*;
+
+    pub async fn pull_transfer<F: CmdTaskFactory>(
+        key: Vec<u8>,
+        dump: Result<RespVec, CommandError>,
+        pttl: Result<RespVec, CommandError>,
+    ) -> Result<Option<RespVec>, CommandError> {
+        let dump_fut: ReplyFuture = Box::pin(async move { dump });
+        let pttl_fut: ReplyFuture = Box::pin(async move { pttl });
+        let entry = get_data_entry(dump_fut, pttl_fut).await?;
+        Ok(entry.map(|DataEntry { raw_data, pttl }| {
+            MgrCmdStateRestoreForward::<F>::gen_restore_resp(&key, raw_data, pttl)
+        }))
+    }
+}
